@@ -81,7 +81,8 @@ def make_case(inp):
             w.write_data(name, V.encode(SPEC, FILES[kind]))
         if inp.get("drop") is not None:
             paths = [p for k, p in enumerate(paths) if k not in inp["drop"]]
-        argv = ([] if until is None else ["--until", str(until)]) + [cid_path] + paths
+        argv = ([] if until is None else ["-u" if inp.get("short") else "--until", str(until)]) + (["--log", inp["log"]] if inp.get("log") else []) \
+            + (["--plugins", w.directory("plugins")] if inp.get("plugins") else []) + [cid_path] + paths
         if inp.get("subprocess"):
             p = subprocess.run([sys.executable, "-m", "cutplace.applications"] + argv, stdout=subprocess.DEVNULL, stderr=subprocess.DEVNULL,
                                env=dict(os.environ, PYTHONPATH="/repo"))
@@ -152,6 +153,16 @@ def gen_inputs(tier, rnd):
                 if tier == "quick" and len(files) == 2 and until in (None, 3):
                     continue
                 yield {"cid": "valid", "files": files, "until": until, "spec": spec_name}
+    # how much is logged does not change the verdict
+    for level in ("debug", "info", "warning", "error", "critical"):
+        for files in (["accepted"], ["field"], ["unique", "accepted"], ["accepted", "missing"]):
+            yield {"cid": "valid", "files": files, "until": None, "log": level}
+        yield {"cid": "rejected", "files": ["accepted"], "until": None, "log": level}
+    # the other spellings and options: -u for --until, a plugin folder (without plugins)
+    for files in (["accepted"], ["field", "accepted"], ["unique"], ["missing"]):
+        for until in (0, 1, 2, -1):
+            yield {"cid": "valid", "files": files, "until": until, "short": True}
+        yield {"cid": "valid", "files": files, "until": None, "plugins": True}
     # names that a shell would read as patterns are names: the file that is named is judged, not its neighbours
     yield {"cid": "valid", "files": ["field"], "until": None, "names": {"0": "data[1].csv"}, "siblings": {"data1.csv": "accepted"}}
     yield {"cid": "valid", "files": ["accepted"], "until": None, "names": {"0": "what?.csv"}, "siblings": {"whatX.csv": "field"}}
